@@ -99,6 +99,22 @@ class RecObserver(W.Worker):
         self.vf_sched.yield_point("observer-end")
 
 
+class StopperObserver(RecObserver):
+    """An observer that itself asks the tokenizer to stop after its k-th detection ("record until the third event")."""
+
+    def vf_arm(self, holder, stop_at):
+        self.vf_holder, self.vf_stop_at, self.vf_stopped = holder, stop_at, False
+        return self
+
+    def _process_message(self, message):
+        super()._process_message(message)
+        if not self.vf_stopped and len(self.vf_log) >= self.vf_stop_at:
+            self.vf_stopped = True
+            self.vf_holder["stop_called"] = True
+            self.vf_holder["stopper_name"] = self.vf_name
+            self.vf_holder["tw"].stop()
+
+
 class FaultyObserver(RecObserver):
     """An observer that dies (raises) while processing its k-th message: the others must not notice."""
 
